@@ -186,8 +186,10 @@ def dec_positions(cls):
     for name, fd in cls["fields"]:
         if fd.get("k") == "number" and fd.get("dec"):
             out.append([name, "bare"])
-        elif fd.get("k") == "seqOf" and fd.get("seq", "list") == "list" and fd["item"].get("dec"):
+        elif fd.get("k") == "seqOf" and fd["item"].get("dec"):
             out.append([name, "items"])
+        elif fd.get("k") == "anyOf" and len(fd["fields"]) == 2 and fd["fields"][0].get("dec") and fd["fields"][1].get("k") == "noneF":
+            out.append([name, "optional"])
         elif fd.get("k") == "mapOf" and fd["val"].get("dec") and '"dec"' not in json.dumps(fd["key"]):
             out.append([name, "values"])
         elif '"dec"' in json.dumps(fd):
@@ -253,11 +255,15 @@ def decimal_cases(rng, tier, n_classes):
         nd = dg.num_opts("number")
         nd.pop("sign", None)
         nd["dec"] = True
-        pos = rng.choice(["bare", "bare", "items", "values"])
+        pos = rng.choice(["bare", "bare", "items", "values", "optional", "qitems"])
         if pos == "bare":
             fd = nd
-        elif pos == "items":
+        elif pos == "optional":
+            fd = {"k": "anyOf", "fields": [nd, {"k": "noneF"}]}
+        elif pos in ("items", "qitems"):
             fd = dg.size_opts({"k": "seqOf", "item": nd})
+            if pos == "qitems":
+                fd["seq"] = "deque"
         else:
             fd = dg.size_opts({"k": "mapOf", "key": {"k": "string"}, "val": nd}, uniq=False)
         fields = [["d", fd]] + [[nm, dg.decl(1)] for nm in rng.sample(["a", "b"], rng.choice([0, 0, 1]))]
@@ -288,10 +294,12 @@ def decimal_cases(rng, tier, n_classes):
             return rng.choice([s_, " " + s_, s_ + " ", "+" + s_ if fr >= 0 else s_])
 
         def wrap(xs):
-            if pos == "bare":
-                return xs[0]
+            if pos in ("bare", "optional"):
+                return xs[0] if xs else None
             if pos == "items":
                 return {"l": list(xs)}
+            if pos == "qitems":
+                return {"q": list(xs)}
             return {"m": [[f"k{i}", x] for i, x in enumerate(xs)]}
 
         good = vg.valid(plain)
@@ -306,14 +314,23 @@ def decimal_cases(rng, tier, n_classes):
         for tag, x in leafs:
             if x is gen.NOVALUE:
                 continue
-            xs = [x] if pos == "bare" or rng.random() < 0.4 else [spell(good), x]
+            xs = [x] if pos in ("bare", "optional") or rng.random() < 0.4 else [spell(good), x]
             kw = others + [["d", wrap(xs)]]
             cases.append({"suite": "construct", "cls": cls, "kw": kw, "stream": "decimal-" + tag, "re": gen.re_table(cls, kw)})
         cases.append({"suite": "construct", "cls": cls, "kw": others, "stream": "decimal-missing", "re": gen.re_table(cls, others)})
         cases.append({"suite": "construct", "cls": cls, "kw": others + [["d", None]], "stream": "decimal-none", "re": gen.re_table(cls, others)})
-        if pos != "bare":
+        if pos not in ("bare", "optional"):
             cases.append({"suite": "construct", "cls": cls, "kw": others + [["d", wrap([])]], "stream": "decimal-empty", "re": gen.re_table(cls, others)})
             cases.append({"suite": "construct", "cls": cls, "kw": others + [["d", rng.choice(vg.confusion())]], "stream": "decimal-confusion", "re": gen.re_table(cls, others)})
+    # directed: NaN / signaling NaN / infinities against uniqueItems, bounds and multiplesOf (judged on the real code alone)
+    for di, (fd, vals) in enumerate([
+            ({"k": "seqOf", "item": {"k": "number", "dec": True}, "uniq": True}, [{"l": [1, "sNaN"]}, {"l": ["NaN", "NaN"]}, {"l": ["Infinity", "Infinity"]}]),
+            ({"k": "number", "dec": True, "min": [0, 1]}, ["sNaN", "NaN", "-Infinity", "Infinity"]),
+            ({"k": "number", "dec": True, "mult": 3}, ["sNaN", "NaN", "Infinity", "1e30", "3e30"])]):
+        cls = {"k": "struct", "name": f"DecX{di}", "required": ["d"], "addl": False, "fields": [["d", fd]]}
+        fix_accepts(cls)
+        for v in vals:
+            cases.append({"suite": "construct", "cls": cls, "kw": [["d", v]], "stream": "decimal-nonfinite", "re": []})
     return cases
 
 
